@@ -135,6 +135,8 @@ impl TaskSet {
             // operations in `Task::wake_by_ref` and ensures that all memory
             // operations performed during and before the tasks were scheduled
             // become visible.
+            #[cfg(feature = "verif-hooks")]
+            crate::verif_hooks::probe(crate::verif_hooks::site::TASKSET_TAKE_BEFORE_CAS, 0);
             match self.shared.head.compare_exchange_weak(
                 head,
                 new_head,
@@ -292,6 +294,8 @@ impl ArcWake for Task {
             }
         };
 
+        #[cfg(feature = "verif-hooks")]
+        crate::verif_hooks::probe(crate::verif_hooks::site::TASKSET_WAKE_NEXT_SET, arc_self.idx as usize);
         // The index to the next task has been set to the index in the head.
         // Other concurrent calls to `wake` or `wake_by_ref` will now see the
         // task as scheduled so this thread is responsible for moving the head.
